@@ -59,8 +59,9 @@ def _add(rep, name, evs, v):
     kept = []
     summary = {}
     for cls, fs in sorted(classes.items()):
-        fs.sort(key=lambda f: (len(by_tid[f["tid"]].get("key", "")), by_tid[f["tid"]].get("key", "")))
-        kept += fs[:1]
+        fs.sort(key=lambda f: (by_tid[f["tid"]].get("src") != "named", len(by_tid[f["tid"]].get("key", "")), by_tid[f["tid"]].get("key", "")))
+        named = [f for f in fs if by_tid[f["tid"]].get("src") == "named"]
+        kept += named + [f for f in fs if f not in named][:1]
         wit = [info.get(f["tid"], {}).get("conservative") for f in fs]
         summary[cls] = {"events": len(fs), "not_conservative": wit.count("NO"), "conservative": wit.count("yes"),
                         "example": by_tid[fs[0]["tid"]].get("key", "")[:200]}
@@ -159,7 +160,7 @@ def run(rep, tier):
     # ---- spec -> code (two shards), concurrently: oracle non-vacuity (weakened readings of the conditions must violate ConservativeIfOK)
     shards = _split_lines(vec, 2, wd, "vec")
     outs = [wd / ("defs_%d.ndjson" % i) for i in range(len(shards))]
-    dfuts = [pool.submit(run_driver, "c11", ["defs", a, b]) for a, b in zip(shards, outs)]
+    dfuts = [pool.submit(run_driver, "c11", ["defs", a, b] + (["named"] if k == 0 else [])) for k, (a, b) in enumerate(zip(shards, outs))]
     menv = {"VECTOR_FILE": wd / "mutant_vectors.ndjson"}
     full = "SyntacticOK(d) == ArgsDistinctVars(d) /\\ NoExtraFree(d) /\\ NoExtraTVars(d) /\\ NoSelfOverlap(d)"
     spec_mutant(rep, "no_self_occurrence_condition", "C11_Items", "C11_Items_tiny.cfg",
@@ -242,6 +243,9 @@ def replay(path):
         c = e["cand"]
         write_events(wd / "vec.ndjson", [c])
         run_driver("c11", ["defs", wd / "vec.ndjson", out])
+    elif src == "named":
+        write_events(wd / "vec.ndjson", [])
+        run_driver("c11", ["defs", wd / "vec.ndjson", out, "named"])
     elif src == "rand":
         run_driver("c11", ["rand", e["cand"]["idx"] + 1, out, seed()])
     elif src == "gen":
